@@ -562,6 +562,63 @@ func c12Scenario(c *Ctx, idx int, r *Rng) (mline, mimpl, mcase string) {
 			fail("after migrate import a ref does not point at the image of its commit", fmt.Sprintf("%s: %s want %s", f[0], strings.TrimSpace(now), image(target)), "")
 		}
 		if f[1] == "tag" {
+			// the chain of tag objects between the ref and its commit, against the model TagRw.rewrite
+			chain := func(obj string) (metas []string, commit string) {
+				for depth := 0; depth < 8; depth++ {
+					typ, _ := w.git("cat-file", "-t", obj)
+					if strings.TrimSpace(typ) != "tag" {
+						return metas, obj
+					}
+					body, _ := w.git("cat-file", "tag", obj)
+					next := ""
+					var keep []string
+					for _, bl := range strings.Split(strings.TrimRight(body, "\n"), "\n") { // the final newline: D35 (known)
+						if strings.HasPrefix(bl, "object ") && next == "" {
+							next = strings.TrimPrefix(bl, "object ")
+							continue
+						}
+						keep = append(keep, bl)
+					}
+					metas = append(metas, sha([]byte(strings.Join(keep, "\n"))))
+					obj = next
+				}
+				return metas, obj
+			}
+			oldM, oldC := chain(f[2])
+			nowSha, _ := w.git("rev-parse", "-q", "--verify", f[0])
+			newM, newC := chain(strings.TrimSpace(nowSha))
+			ids := map[string]int{}
+			id := func(x string) int {
+				if _, ok := ids[x]; !ok {
+					ids[x] = len(ids) + 1
+				}
+				return ids[x]
+			}
+			encChain := func(ms []string, cm string) string {
+				var t []string
+				for _, m := range ms {
+					t = append(t, fmt.Sprint(id(m)))
+				}
+				return strings.Join(t, ",") + ":" + fmt.Sprint(id(cm))
+			}
+			oldEnc := encChain(oldM, oldC)
+			img := "-"
+			if im := image(oldC); im != oldC {
+				img = fmt.Sprintf("%d>%d", id(oldC), id(im))
+			}
+			newEnc := encChain(newM, newC)
+			line := "C12 tagrw " + img + " " + oldEnc
+			if ans, err := c.Or.Ask([]string{line}); err == nil && len(ans) == 1 {
+				want := ans[0]
+				if want == "none" {
+					want = oldEnc
+				}
+				c.R.Count(fmt.Sprintf("tagchain.depth.%d", len(oldM)))
+				if want != newEnc {
+					c.R.Add(Finding{Kind: "diff", What: "a ref that reaches its commit through tag objects: the chain after migrate differs from the model's (TagRw.rewrite)", Case: clip(enc, 2500),
+						Impl: f[0] + " " + newEnc, Model: want + " <= " + line, Broken: "corr.C12.tagchain"})
+				}
+			}
 			typ, _ := w.git("cat-file", "-t", f[0])
 			if strings.TrimSpace(typ) != "tag" {
 				fail("an annotated tag did not stay an annotated tag", f[0], "")
